@@ -31,10 +31,11 @@ class SignallingCondition(threading.Condition):
             self.waiting.clear()
 
 
-def run_waiter(fn, cond, deliver, join_timeout=60.0, enter_timeout=30.0, grace=15.0):
+def run_waiter(fn, cond, deliver, join_timeout=60.0, enter_timeout=30.0, grace=15.0, must_return=False):
     """Start fn() in a thread, wait until it blocks in cond.wait(), call deliver(), join.
 
-    Returns (status, value): status in 'returned', 'raised', 'never-waited', 'hung', 'not-woken'."""
+    Returns (status, value): status in 'returned', 'raised', 'never-waited', 'hung', 'not-woken', 're-parked'
+    (only with must_return=True: the delivered event is the matching one, the waiter saw it and waited again)."""
     box = {}
 
     def target():
@@ -57,6 +58,19 @@ def run_waiter(fn, cond, deliver, join_timeout=60.0, enter_timeout=30.0, grace=1
     if deliver is not None:
         n = cond.waits
         deliver()
+        # the delivered event was the one waited for: a waiter that looks at it and parks *again* has not returned on it
+        # (logical criterion; a correct waiter never re-enters wait() after its matching event)
+        if must_return:
+            import time
+            end = time.time() + grace
+            while t.is_alive() and time.time() < end:
+                if cond.waits > n and cond.waiting.is_set():
+                    with cond:
+                        pass
+                    if t.is_alive() and cond.waiting.is_set():
+                        t.join(join_timeout)
+                        return "re-parked", box.get("value")
+                time.sleep(0.001)
         # lost wake-up detection: the event was delivered, yet the waiter is still parked in the
         # same wait() call after a generous grace period (its own time-out is longer than that)
         t.join(grace)
